@@ -1428,11 +1428,19 @@ func checkTargetPrintThroughLineBuffer(p *core.Prog, r *core.Result, rule string
 // label constructor that can fail (label.Join, Parse, New, Clean, (*Label).RelativeTo) has its error looked at before
 // the result is used: the package walk joins directory names onto package paths, and a name no label can contain (a
 // ':') gives the empty package - the recursive walk then slices path[2:] of "" and Load crashes on an acyclic project.
-// Exempt, by name and with the reason: the RelativeTo call of (*module).loadModule, whose operands are both results of
-// label.Clean (R12.6), for which Join cannot fail.
+// Exempt, by construction: a RelativeTo call whose argument is the Package field of a label (both operands are then
+// results of label.Clean, R12.6, for which Join cannot fail).
 func checkLabelErrorsNotDropped(p *core.Prog, r *core.Result, rule string) {
-	exempt := map[string]string{
-		"(*dawn.module).loadModule#RelativeTo": "both operands are Clean results (the parsed label's package and the module's own package, R12.6): Join of two clean packages cannot fail",
+	// exempt, by construction: (*Label).RelativeTo(pkg) where pkg is read from the Package field of a Label - the
+	// receiver's package and the argument are then both Clean results (R12.6), for which Join cannot fail
+	exemptCall := func(call *ssa.Call, cal *ssa.Function) string {
+		if cal.Name() != "RelativeTo" || len(call.Call.Args) != 2 {
+			return ""
+		}
+		if core.LoadOfField(core.Unwrap(call.Call.Args[1]), pkgLabel, "Label", "Package") {
+			return "both operands are Clean results (the receiver's package and the Package field of another label, R12.6): Join of two clean packages cannot fail"
+		}
+		return ""
 	}
 	n := 0
 	seen := map[string]int{}
@@ -1480,8 +1488,8 @@ func checkLabelErrorsNotDropped(p *core.Prog, r *core.Result, rule string) {
 			switch {
 			case used || !resultUsed:
 				r.OK(rule, construct, p.InstrPos(call), "the error of %s is looked at", cal.Name())
-			case exempt[key] != "":
-				r.OK(rule, construct, p.InstrPos(call), "exempt: %s", exempt[key])
+			case exemptCall(call, cal) != "":
+				r.OK(rule, construct, p.InstrPos(call), "exempt: %s", exemptCall(call, cal))
 			default:
 				r.Bad(rule, construct, p.InstrPos(call), "the error of label.%s is dropped and its result used: for an operand no label can contain (a directory name with a ':') the result is the zero value, and what follows works on a package that does not exist - the package walk slices path[2:] of the empty package and Load crashes on an acyclic project", cal.Name())
 			}
